@@ -254,7 +254,7 @@ func TestC10(t *testing.T) {
 
 	gen := func(yield func(vt.Case)) {
 		// --- TLC worlds x TLC matcher sets ---
-		nw := vt.Pick(20, 300)
+		nw := vt.Pick(20, 100)
 		nq := 15
 		qi := 0
 		for wi := 0; wi < nw && len(tlcWorlds) > 0; wi++ {
@@ -298,9 +298,6 @@ func TestC10(t *testing.T) {
 				if rnd.Intn(5) == 0 {
 					ms = append(ms, extMatchers[rnd.Intn(len(extMatchers))])
 				}
-				if rnd.Intn(12) == 0 { // selectors on external labels only
-					ms = []c10Matcher{extMatchers[rnd.Intn(len(extMatchers))]}
-				}
 				a, b := ranges(blocks)
 				qs = append(qs, c10Query{Ms: ms, Mint: a, Maxt: b})
 				if rnd.Intn(4) == 0 { // the same selectors again later with another range (cache hit, other chunks)
@@ -309,10 +306,31 @@ func TestC10(t *testing.T) {
 					k++
 				}
 			}
-			yield(c10ToCase(c10Case{Blocks: blocks, Cr: cr, Qs: qs, Cfgs: pickCfgs(vt.Pick(8, 21))}))
+			yield(c10ToCase(c10Case{Blocks: blocks, Cr: cr, Qs: qs, Cfgs: pickCfgs(vt.Pick(8, 10))}))
+		}
+		// --- known finding ext-only-selectors: histories whose selectors are all on external labels ---
+		for wi := 0; wi < vt.Pick(2, 12) && len(tlcWorlds) > 0; wi++ {
+			w := tlcWorlds[(nw+wi)%len(tlcWorlds)]
+			var series []c10Series
+			for si, ls := range w {
+				l := map[string]string{"job": "j"}
+				for k, v := range ls {
+					if v != "" {
+						l[k] = v
+					}
+				}
+				series = append(series, c10Series{Ls: l, Samples: mkSamples(si)})
+			}
+			blocks := []c10Block{{Ext: map[string]string{"ext": "e1"}, Series: series}, {Ext: map[string]string{"ext": "e2"}, Series: series}}
+			var qs []c10Query
+			for k := 0; k < 5; k++ {
+				a, b := ranges(blocks)
+				qs = append(qs, c10Query{Ms: []c10Matcher{extMatchers[rnd.Intn(len(extMatchers))]}, Mint: a, Maxt: b})
+			}
+			yield(c10ToCase(c10Case{Blocks: blocks, Cr: cr, Qs: qs, Cfgs: pickCfgs(4)}))
 		}
 		// --- bigger seeded worlds ---
-		for wi := 0; wi < vt.Pick(6, 80); wi++ {
+		for wi := 0; wi < vt.Pick(6, 30); wi++ {
 			card := 20 + rnd.Intn(21)
 			ns := 12 + rnd.Intn(49)
 			val := func(i int) string { return fmt.Sprintf("v%02d", i) }
@@ -377,7 +395,7 @@ func TestC10(t *testing.T) {
 				a, b := ranges(blocks)
 				qs = append(qs, c10Query{Ms: ms, Mint: a, Maxt: b})
 			}
-			yield(c10ToCase(c10Case{Blocks: blocks, Cr: cr, Qs: qs, Cfgs: pickCfgs(vt.Pick(6, 21))}))
+			yield(c10ToCase(c10Case{Blocks: blocks, Cr: cr, Qs: qs, Cfgs: pickCfgs(vt.Pick(6, 10))}))
 		}
 	}
 	vt.Run(t, gen, c10KnownFinding, func(c vt.Case) vt.Event { return runC10(t, c) })
@@ -420,7 +438,27 @@ func c10ToCase(c c10Case) vt.Case {
 	return out
 }
 
-func c10KnownFinding(c vt.Case) string { return "" }
+// c10KnownFinding: key "ext-only-selectors" iff some query of the history has selectors and all of
+// them are on label names that are external labels of a block of the world (decided on the input).
+func c10KnownFinding(c vt.Case) string {
+	ext := map[string]bool{}
+	for _, b := range vt.List(c["blocks"]) {
+		for k := range vt.Map(vt.Map(b)["ext"]) {
+			ext[k] = true
+		}
+	}
+	for _, q := range vt.List(c["qs"]) {
+		ms := vt.List(vt.Map(q)["ms"])
+		all := len(ms) > 0
+		for _, m := range ms {
+			all = all && ext[vt.Str(vt.Map(m)["name"])]
+		}
+		if all {
+			return "ext-only-selectors"
+		}
+	}
+	return ""
+}
 
 func c10Discard() *slog.Logger { return slog.New(slog.NewTextHandler(io.Discard, nil)) }
 
